@@ -24,8 +24,8 @@ type Input struct {
 	BudgetS int      `json:"budget_s"` // wall-clock cap
 	Known   []string `json:"known"`    // signatures of known findings (suppressed, counted)
 	Replay  *Case    `json:"replay,omitempty"`
-	List    bool     `json:"list,omitempty"` // only list registrations
-	Focus   string   `json:"focus,omitempty"` // debugging aid: ignore candidates whose signature does not contain this text
+	List    bool     `json:"list,omitempty"`   // only list registrations
+	Focus   string   `json:"focus,omitempty"`  // debugging aid: ignore candidates whose signature does not contain this text
 	Triage  bool     `json:"triage,omitempty"` // list every distinct candidate signature, do not stop (never used by registered commands)
 }
 
